@@ -655,6 +655,11 @@ func (v Int256Value) BitwiseRightShift(context ValueStaticTypeContext, other Int
 		panic(&NegativeShiftError{})
 	}
 	if !o.BigInt.IsUint64() {
+		// All bits are shifted out: the result of the arithmetic shift is the sign,
+		// i.e. -1 for negative values and 0 otherwise.
+		if v.BigInt.Sign() < 0 {
+			return NewInt256ValueFromInt64(context, -1)
+		}
 		return NewInt256ValueFromInt64(context, 0)
 	}
 
